@@ -15,7 +15,7 @@ package staking
 //@ loop 1 continue [propagate]  callsok("handler")
 //@ loop 1 continue [each-once]  ncalls("handler") <= 1
 //@ loop 1 continue [matching-logs-handled] log.Address.Bytes() == h.stakingContract.Bytes() && mapHas(h.handlers, log.Topics[0]) ==> ncalls("handler") == 1
-//@ ensures [all-logs-visited] result == nil ==> !returnedInLoop(1)
+//@ ensures [all-logs-visited] result == nil ==> loopCompleted(1)
 
 // ---- handlers: the message is built from the event's own fields and routed through ExecuteMsg -------
 // verif:func (*HookAdapter).HandleDelegated
